@@ -28,12 +28,14 @@ class C20(object):
                    'exogenous variables are lists/tuples/list expressions (the template slices them)',
                    'tolerance line 1e-6..1e-9, default cap 400 of the template']
     required_counters = ('module.ran', 'equations_judged', 'vs_inprocess.compared', 'header.judged',
-                         'module.without_user_time', 'generator.reused')
+                         'module.without_user_time', 'generator.reused', 'bundled.ran')
 
     def n_cases(self, tier):
         return 120 if tier == 'quick' else 6000
 
     def make_case(self, rng, idx, tier):
+        if idx == 0:
+            return {'kind': 'bundled', 'name': 'SIM'}
         spec = G.gen_affine(rng, rho=rng.choice([0.2, 0.5, 0.8]), tol=rng.choice([1e-6, 1e-8, 1e-9]),
                             maxtime=rng.randint(1, 10), ics=False, const_scale=rng.choice([1.0, 10.0, 100.0]))
         for e in spec['exos']:
@@ -58,7 +60,66 @@ class C20(object):
             case['other_text'] = G.render(other)
         return case
 
+    def run_bundled(self, case):
+        """The block bundled in deprecated/GL_machine_generated.py, generated through its own build_model()."""
+        from sfc_models.deprecated import GL_machine_generated as GL
+        from sfc_models.equation_solver import EquationSolver
+        rec = monitors.Recorder()
+        text = GL.model_list[case['name']]
+        tmp = tempfile.mkdtemp(prefix='vf_c20_')
+        modname = 'vf_generated_bundled_%s' % case['name']
+        path = os.path.join(tmp, modname + '.py')
+        try:
+            try:
+                with contextlib.redirect_stdout(io.StringIO()):
+                    gen = GL.build_model(case['name'])
+                    gen.main(path)
+                    sp = importlib.util.spec_from_file_location(modname, path)
+                    mod = importlib.util.module_from_spec(sp)
+                    sp.loader.exec_module(mod)
+                    obj = mod.SFCModel()
+                    obj.main()
+            except Exception as e:
+                rec.violate('generated_module_does_not_run', {'err': repr(e)[:300], 'bundled': case['name']},
+                            mechanism='module_does_not_run')
+                return self.done(rec, 'bundled', False)
+            rec.count('module.ran')
+            rec.count('bundled.ran')
+            blk = B.split_block(text)
+            T = int(blk['maxtime'])
+            names = [n for n, _ in blk['endo']] + [n for n, _ in blk['exo']]
+            series = {n: list(getattr(obj, n)) for n in names}
+            for n, src in blk['lag']:
+                series[n] = [0.0] + series[src][:-1]
+            series['k'] = [float(i) for i in range(T + 1)]
+            viol, stats = B.check_solution(blk, series, 1e-8)
+            rec.count('equations_judged', stats['equations_judged'])
+            for v in viol[:3]:
+                rec.violate('module_' + v['kind'], v['detail'])
+            s = EquationSolver(run_equation_reduction=False)
+            with contextlib.redirect_stdout(io.StringIO()):
+                s.ParseString(text)
+                s.SolveEquation()
+            rec.count('vs_inprocess.compared')
+            for n in names:
+                for k in range(1, T + 1):
+                    a, b_ = series[n][k], s.TimeSeries[n][k]
+                    if not abs(a - b_) <= 1e-4 * max(1.0, abs(a)):
+                        rec.violate('module_differs_from_inprocess_solver', {'var': n, 'k': k, 'module': a, 'inprocess': b_})
+                        break
+            rec.count('header.judged')
+            head = obj.CreateCsvString().split('\n')[0].split('\t')
+            if head[0] != 't' or len(set(head)) != len(head) or not set(names) <= set(head):
+                rec.violate('module_header_wrong', {'header': head})
+            return self.done(rec, 'bundled', True, nontrivial=True, obs={'bundled': case['name'], 'horizon': T,
+                                                                        'Y_last': series['Y'][-1]})
+        finally:
+            sys.modules.pop(modname, None)
+            shutil.rmtree(tmp, ignore_errors=True)
+
     def run_case(self, case):
+        if case['kind'] == 'bundled':
+            return self.run_bundled(case)
         from sfc_models.deprecated.iterative_machine_generator import IterativeMachineGenerator
         from sfc_models.equation_solver import EquationSolver
         rec = monitors.Recorder()
